@@ -91,7 +91,11 @@ def compare_cols(got, want_cols, want_dtype, names_got, names_want=("q0", "q1"))
         if a is None or b is None:
             probs.append(f"term {sorted(key)}: got {None if a is None else a.tolist()} expected {None if b is None else b.tolist()}")
             continue
-        if a.shape != b.shape or not numpy.array_equal(a.astype(complex), b.astype(complex)):
+        if a.dtype.kind in "iub" and b.dtype.kind in "iub":     # integers are compared as integers (beyond 2**53 a float cannot tell them apart)
+            same = a.shape == b.shape and a.astype(object).tolist() == b.astype(object).tolist()
+        else:
+            same = a.shape == b.shape and numpy.array_equal(a.astype(complex), b.astype(complex))
+        if not same:
             probs.append(f"term {sorted(key)}: values {a.tolist()} != numpy's {b.tolist()}")
     return probs
 
